@@ -271,6 +271,19 @@ impl Sh {
                 }
             }
             b"ping" => Ok(vec![]),
+            // typed commands with distinguishable replies (functions of their argument): World.tla ExecT
+            b"sticker" => {
+                let uri = words.get(3).cloned().unwrap_or_default();
+                let mut v = b"n=".to_vec();
+                v.extend_from_slice(&uri);
+                Ok(vec![Line::f(b"sticker", &v)])
+            }
+            b"update" => Ok(vec![Line::f(b"updating_db", b"7")]),
+            b"addid" => {
+                let uri = words.get(1).cloned().unwrap_or_default();
+                Ok(vec![Line::f(b"Id", uri.len().to_string().as_bytes())])
+            }
+            b"channels" => Ok(vec![Line::f(b"channel", b"c1"), Line::f(b"channel", b"c2")]),
             b"readpicture" | b"albumart" => {
                 let embedded = name == b"readpicture";
                 let off: usize = words.get(2).and_then(|w| std::str::from_utf8(w).ok()).and_then(|s| s.parse().ok()).unwrap_or(0);
